@@ -19,8 +19,12 @@ def gen_mus_events(rng, n=None):
     evs = []
     n = n or rng.choice([3, 10, 40])
     sounding = []
-    for _ in range(n):
-        ch = rng.choice([0, 1, 2, 15, 15, 7])
+    wide = rng.random() < 0.35           # scores that use many MUS channels (the MIDI channels are handed out in order of first use)
+    order = list(range(15)); rng.shuffle(order)
+    if wide:
+        n = max(n, 20)
+    for k in range(n):
+        ch = rng.choice([0, 1, 2, 15, 15, 7]) if not wide else (order[k] if k < 15 else rng.choice(order + [15]))
         c = rng.random()
         delay = rng.choice([0, 0, 1, 2, 35, 140, 300, 20000])
         if c < 0.45:
